@@ -34,8 +34,9 @@ type simPolicy struct {
 	maxRenew    time.Duration // 0: never renewable
 	requirePA   bool
 	sessionEt   int32
-	alwaysRefer bool // adversarial: every TGS request is answered with a referral to the next realm (cycle)
-	defaultSalt bool // the client's key uses the default salt and parameters: no hints needed
+	alwaysRefer bool          // adversarial: every TGS request is answered with a referral to the next realm (cycle)
+	defaultSalt bool          // the client's key uses the default salt and parameters: no hints needed
+	backdate    time.Duration // AS: the authentication time lies this far in the past (a TGT that is nearly used up when it is issued)
 }
 
 type simReq struct {
@@ -251,7 +252,7 @@ func (s *kdcSim) handleAS(realm string, a messages.ASReq, raw []byte) []byte {
 	}
 	wantRenew := types.IsFlagSet(&a.ReqBody.KDCOptions, flags.Renewable)
 	nowS := now.Truncate(time.Second)
-	t := s.issue(realm, a.ReqBody.SName.NameString, cname.NameString, realm, nowS, nowS, a.ReqBody.Till, a.ReqBody.RTime, wantRenew, time.Time{})
+	t := s.issue(realm, a.ReqBody.SName.NameString, cname.NameString, realm, nowS.Add(-s.pol.backdate), nowS, a.ReqBody.Till, a.ReqBody.RTime, wantRenew, time.Time{})
 	r.outcome = fmt.Sprintf("issued %d", t.id)
 	r.issued = t.id
 	return s.reply(false, t, cname, a.ReqBody.Nonce, key, hints)
